@@ -21,6 +21,21 @@ of the transport / of main (every write and read has a point before and after
 its effect; main has one between steps); `late=True` requests the cancellation
 at the last close() of the teardown so that it lands inside DBHandler.disconnect.
 
+Scanner-level jobs (`"scan": {...}` next to "hist"): the command itself is varied, not only its main():
+  "ctor":  None | False | True   the scanner subclass assigns `self.implicit_logging` in its CONSTRUCTOR (as
+                                 `scan uds dump-seeds` does), i.e. before a database handler or an ECU object exists;
+                                 UDSScanner.setup() has to carry the setting over to the ECU object it creates
+  "ping":  bool                  --ping / --no-ping (wait_for_ecu in setup; every ping is an exchange)
+  "reset": None | level          --ecu-reset (ecu_reset / set_session / ecu_reset again in setup)
+  "props": "off"|"plain"|"oem"   --no-properties | properties of the default ECU class (no traffic) | an OEM ECU
+                                 class whose properties() reads DID 0xF190 (setup AND teardown exchange something)
+  "ecu":   {"reset": "ok"|"neg"|"neg_then_ok", "silent_pings": k}   how the scripted peer answers setup's requests
+The exchanges setup()/teardown() make themselves are recorded like those of main(): the ECU class handed out by
+`load_ecu` (stubbed for these jobs only) is an ECU subclass whose public request() notes call / outcome and asks a
+responder (by request bytes, not by position: a set-up that asks more or in another order is answered all the same)
+for the reply.  "implicit logging on/off" of an exchange is what the COMMAND asked for (`scanner.implicit_logging`),
+not the flag of the ECU object: whether the one reaches the other is part of what is checked.
+
 Nothing here judges the property: the module records events, reads the rows
 back with sqlite3 and lays both out as the record of DbLogContract.tla.
 """
@@ -35,14 +50,17 @@ import sqlite3
 import tempfile
 import time
 from binascii import unhexlify
+from dataclasses import dataclass
 from pathlib import Path
 from typing import Any, Self
 
 import gallia.command  # noqa: F401  (resolves the command <-> plugin import cycle)
+import gallia.command.uds as _uds_cmd
 import gallia.plugins.plugin as _plugin
 from gallia.command.uds import UDSScanner, UDSScannerConfig
 from gallia.services.uds.core import service
 from gallia.services.uds.core.client import UDSRequestConfig
+from gallia.services.uds.ecu import ECU, ECUProperties
 from gallia.transports.base import BaseTransport, TargetURI
 
 from harness import c11_kinds as K
@@ -105,6 +123,19 @@ class Env:
         self.closes = 0
         self.stall = False   # the database writer's INSERTs into scan_result are held back while main() runs
         self.gate: asyncio.Event | None = None
+        # scanner-level jobs
+        self.scanner: Any = None     # the command object: its `implicit_logging` is what was asked for
+        self.scan: dict[str, Any] | None = None
+        self.phase = "setup"         # setup -> main -> teardown (coverage label of an exchange)
+        self.auto_n = 0              # exchanges made outside main()'s history (ids 100001, 100002, ...)
+        self.silent_pings = 0
+        self.dsc_seen = False
+
+    def impl(self) -> bool:
+        """implicit logging as the command asked for it (falls back to the ECU object's flag)"""
+        if self.scanner is not None:
+            return bool(self.scanner.implicit_logging)
+        return bool(self.ecu.implicit_logging)
 
     def dispose(self) -> None:
         _ENVS.pop(self.key, None)
@@ -235,8 +266,8 @@ class HistScanner(UDSScanner):
             cfg = UDSRequestConfig(tags=tags, max_retry=step.get("retry"))
         call = {"i": i, "script": step.get("script", []), "pos": 0}
         env.active[_task()] = call
-        env.rec(e="Call", i=i, req=pdu_hex, impl=bool(self.ecu.implicit_logging), ana=bool(step.get("ana")),
-                st=env.state(), cls=spec["cls"])
+        env.rec(e="Call", i=i, req=pdu_hex, impl=env.impl(), ana=bool(step.get("ana")),
+                st=env.state(), cls=spec["cls"], phase=env.phase)
         out, exc = "ret", None
         try:
             if step.get("cut"):
@@ -255,7 +286,7 @@ class HistScanner(UDSScanner):
             raise
         finally:
             env.active.pop(_task(), None)
-            env.rec(e="Ret", i=i, out=out, exc=exc, impl=bool(self.ecu.implicit_logging))
+            env.rec(e="Ret", i=i, out=out, exc=exc, impl=env.impl())
 
     async def main(self) -> None:
         env = self.env
@@ -297,6 +328,7 @@ class HistScanner(UDSScanner):
 
             conn.execute = held_execute  # type: ignore[method-assign]
         env.in_main = True
+        env.phase = "main"
         n = 0
         try:
             for step in self.hist:
@@ -325,7 +357,102 @@ class HistScanner(UDSScanner):
             await env.point("idle")
         finally:
             env.in_main = False
+            env.phase = "teardown"
             env.rec(e="MainEnd")
+
+
+class CtorScanner(HistScanner):
+    """A scanner that chooses its implicit logging in the constructor (before setup() creates the ECU object)."""
+
+    CTOR_IMPL: bool | None = None
+
+    def __init__(self, config: UDSScannerConfig) -> None:
+        super().__init__(config)
+        if self.CTOR_IMPL is not None:
+            self.implicit_logging = self.CTOR_IMPL
+
+
+VIN = b"WVWZZZ1JZXW000001"
+
+
+@dataclass
+class _Props(ECUProperties):
+    vin: str = ""
+
+
+def respond(env: Env, pdu: bytes) -> list[list[str]]:
+    """The scripted peer's answer to a request made outside main()'s history, chosen by the request bytes."""
+    model = (env.scan or {}).get("ecu", {})
+    sid = pdu[0]
+    if pdu == b"\x3e\x00":
+        if env.silent_pings > 0:
+            env.silent_pings -= 1
+            return [["T"]]
+        return [["D", "7e00"]]
+    if sid == 0x11 and len(pdu) == 2:
+        beh = model.get("reset", "ok")
+        if beh == "ok" or (beh == "neg_then_ok" and env.dsc_seen):
+            env.dsc_seen = False
+            return [["D", bytes([0x51, pdu[1] & 0x7F]).hex()]]
+        return [["D", "7f117f" if beh == "neg_then_ok" else "7f1122"]]
+    if sid == 0x10 and len(pdu) == 2:
+        env.dsc_seen = True
+        return [["D", bytes([0x50, pdu[1] & 0x7F, 0x00, 0x32, 0x01, 0xF4]).hex()]]
+    if pdu == b"\x22\xf1\x90":
+        return [["D", (b"\x62\xf1\x90" + VIN).hex()]]
+    if pdu == b"\x22\xf1\x86":
+        return [["D", "62f18601"]]
+    return [["D", bytes([0x7F, sid, 0x11]).hex()]]
+
+
+def make_obs_ecu(env: Env, oem_props: bool) -> type[ECU]:
+    class ObsECU(ECU):
+        def __init__(self, *a: Any, **kw: Any) -> None:
+            super().__init__(*a, **kw)
+            env.ecu = self
+            self.retry_wait = 0.0005
+
+        # Both the public entry and the one below it note a call (whichever is entered first does): a client whose
+        # service helpers call `_request` directly is observed all the same.
+        async def request(self, request: Any, config: Any = None) -> Any:  # type: ignore[override]
+            return await self._noted(super().request, request, config)
+
+        async def _request(self, request: Any, config: Any = None) -> Any:
+            return await self._noted(super()._request, request, config)
+
+        async def _noted(self, inner: Any, request: Any, config: Any) -> Any:
+            if _task() in env.active:   # already noted: by request() above or, for main()'s history, by HistScanner
+                return await inner(request, config)
+            env.auto_n += 1
+            i = 100000 + env.auto_n
+            pdu = bytes(request.pdu)
+            ana = config is not None and config.tags is not None and "ANALYZE" in config.tags
+            call = {"i": i, "script": respond(env, pdu), "pos": 0}
+            env.active[_task()] = call
+            env.rec(e="Call", i=i, req=pdu.hex(), impl=env.impl(), ana=bool(ana), st=env.state(),
+                    cls=type(request).__name__, phase=env.phase)
+            out, exc = "ret", None
+            try:
+                return await inner(request, config)
+            except Exception as e:  # noqa: BLE001
+                out, exc = "exc", repr(e)[:200]
+                raise
+            except BaseException:
+                out = "cancel"
+                raise
+            finally:
+                env.active.pop(_task(), None)
+                env.rec(e="Ret", i=i, out=out, exc=exc, impl=env.impl())
+
+        if oem_props:
+
+            async def properties(self, fresh: bool = False, config: Any = None) -> ECUProperties:
+                resp = await self.read_data_by_identifier(0xF190, config=config)
+                if isinstance(resp, service.NegativeResponse):
+                    return _Props(vin="")
+                return _Props(vin=bytes(resp.data_record).decode("ascii", "replace"))
+
+    return ObsECU
 
 
 def _decode_rows(path: Path, t0: float) -> tuple[list[dict[str, Any]], list[int]]:
@@ -390,8 +517,12 @@ def build_trace(env: Env, rows: list[dict[str, Any]], closed: bool, aborted: boo
         if e == "Call":
             calls[ev["i"]] = {"i": ev["i"], "req0": ev["req"], "writes": [], "replies": [], "out": "cancel",
                               "st0": ev["st"], "st": None, "impl0": ev["impl"], "impl1": ev["impl"],
-                              "ana": ev["ana"], "cls": ev["cls"], "exc": None, "key": None, "callpos": pos,
+                              "ana": ev["ana"], "cls": ev["cls"], "phase": ev.get("phase", "main"),
+                              "exc": None, "key": None, "callpos": pos,
                               "open": True, "task": ev["task"], "warn": None}
+        elif e == "W" and ev["i"] is None and env.scan is not None:
+            raise Machinery(f"a transmission ({ev['data']}) outside any noted call of the ECU client: the harness's "
+                            "ECU subclass no longer sees the client's entry points")
         elif e == "W" and ev["i"] in calls:
             c = calls[ev["i"]]
             if not c["writes"]:
@@ -434,7 +565,7 @@ def build_trace(env: Env, rows: list[dict[str, Any]], closed: bool, aborted: boo
                      "impl": impl, "ana": c["ana"],
                      # the call ended with the client's "illegal response" errors: a reply WAS received and refused
                      "illegal": c["out"] == "exc" and str(c["exc"]).startswith(("RequestResponseMismatch", "MalformedResponse"))})
-        meta.append({"i": i, "cls": c["cls"], "exc": c["exc"], "warn": c["warn"]})
+        meta.append({"i": i, "cls": c["cls"], "exc": c["exc"], "warn": c["warn"], "phase": c["phase"]})
     trows = [{k: r[k] for k in ("okDecode", "req", "hasResp", "resp", "hasExc", "st", "mode", "send", "hasRecv",
                                 "recv")} for r in rows]
     return {"exch": exch, "rows": trows, "closed": closed, "aborted": aborted, "stray": stray,
@@ -465,14 +596,27 @@ async def _watchdog(env: Env) -> None:
 
 
 async def _run_one(hist: list[dict[str, Any]], db: Path, cancel_at: int | None, late: bool,
-                   stall: bool | str = False, key: str | None = None) -> dict[str, Any]:
+                   stall: bool | str = False, key: str | None = None,
+                   scan: dict[str, Any] | None = None) -> dict[str, Any]:
     env = Env(cancel_at, late, key)
     env.stall = stall
+    env.scan = scan
     _CURRENT.append(env)
+    real_load_ecu = _uds_cmd.load_ecu
     try:
-        cfg = UDSScannerConfig(target=TargetURI(env.key), db=db, dumpcap=False, ping=False, tester_present=False,
-                               max_retries=0)
-        sc = HistScanner(cfg)
+        if scan is None:
+            cfg = UDSScannerConfig(target=TargetURI(env.key), db=db, dumpcap=False, ping=False,
+                                   tester_present=False, max_retries=0)
+            sc = HistScanner(cfg)
+        else:
+            env.silent_pings = int(scan.get("ecu", {}).get("silent_pings", 0))
+            cfg = UDSScannerConfig(target=TargetURI(env.key), db=db, dumpcap=False, ping=bool(scan.get("ping")),
+                                   tester_present=False, max_retries=0, ecu_reset=scan.get("reset"),
+                                   properties=scan.get("props", "plain") != "off")
+            obs = make_obs_ecu(env, scan.get("props") == "oem")
+            _uds_cmd.load_ecu = lambda oem: obs  # type: ignore[assignment]  # stub, this run only
+            sc = type("CtorScannerV", (CtorScanner,), {"CTOR_IMPL": scan.get("ctor")})(cfg)
+        env.scanner = sc
         sc.env = env
         sc.hist = hist
         task = asyncio.get_running_loop().create_task(sc.entry_point(), name="run")
@@ -509,8 +653,10 @@ async def _run_one(hist: list[dict[str, Any]], db: Path, cancel_at: int | None, 
             except Exception:  # noqa: BLE001
                 pass
         return {"env": env, "rc": rc, "cancelled": cancelled, "closed": closed, "leftover": leftover,
-                "scan_run": env.scan_run}
+                # (a run that ended before main(): the handler still knows its scan run)
+                "scan_run": env.scan_run if env.scan_run is not None else getattr(h, "scan_run", None)}
     finally:
+        _uds_cmd.load_ecu = real_load_ecu  # type: ignore[assignment]
         _CURRENT.pop()
 
 
@@ -527,7 +673,7 @@ def run_file(jobs: list[dict[str, Any]]) -> list[dict[str, Any]]:
         key = f"c11://target{Env._n}"  # the runs of one database file scan the SAME target (re-scans)
         for job in jobs:
             results.append(asyncio.run(_run_one(job["hist"], db, job.get("cancel_at"), bool(job.get("late")),
-                                                job.get("stall") or False, key)))
+                                                job.get("stall") or False, key, job.get("scan"))))
         rows, runs = _decode_rows(db, t0)
         mine = {r["scan_run"] for r in results if r["scan_run"] is not None}
         stray = sum(1 for r in rows if r["run"] not in mine)
@@ -538,7 +684,7 @@ def run_file(jobs: list[dict[str, Any]]) -> list[dict[str, Any]]:
             aborted = bool(r["cancelled"]) or any(ev["e"] == "Abort" for ev in env.log)
             tr = build_trace(env, my, bool(r["closed"]), aborted, stray)
             tr["job"] = {"hist": job["hist"], "cancel_at": job.get("cancel_at"), "late": bool(job.get("late")),
-                         "stall": job.get("stall") or False}
+                         "stall": job.get("stall") or False, "scan": job.get("scan")}
             tr["main_points"] = env.main_points
             tr["points"] = env.points
             tr["rc"] = r["rc"]
